@@ -71,6 +71,21 @@ func init() {
 		st.Events = append(st.Events, "broadcast")
 		return nil, true
 	}
+	specials["(*sync/atomic.Pointer).Load"] = func(x *Exec, st *State, ins ssa.Instruction, c *ssa.Function, a []Value) (Value, bool) {
+		rt := c.Signature.Results().At(0).Type()
+		if p, ok := a[0].(PtrV); ok && p.Ref != nil {
+			x.nilCheck(st, p.Ref, ins)
+			return st.heapLoad(p.Ref, p.Root+".ptr", rt), true
+		}
+		return st.freshValue("aload", rt), true
+	}
+	specials["(*sync/atomic.Pointer).Store"] = func(x *Exec, st *State, ins ssa.Instruction, c *ssa.Function, a []Value) (Value, bool) {
+		if p, ok := a[0].(PtrV); ok && p.Ref != nil {
+			x.nilCheck(st, p.Ref, ins)
+			st.heapStore(p.Ref, p.Root+".ptr", c.Signature.Params().At(0).Type(), a[1])
+		}
+		return nil, true
+	}
 	specials["(*sync.Once).Do"] = func(x *Exec, st *State, ins ssa.Instruction, c *ssa.Function, a []Value) (Value, bool) {
 		// either this call runs f (first call) or f has already completed in an earlier call
 		other := x.fork(st)
@@ -552,6 +567,7 @@ func (x *Exec) doSelect(st *State, i *ssa.Select) bool {
 		}
 		s.Frame.Regs[i] = t
 		s.Trace = append(s.Trace, fmt.Sprintf("select:%d", idx))
+		s.Events = append(s.Events, fmt.Sprintf("select:%d", idx))
 		if idx >= 0 {
 			dir := "recv"
 			if i.States[idx].Dir == types.SendOnly {
